@@ -246,6 +246,8 @@ type disturbance struct {
 	Kind string // "", error, conflict, lost, crash, drift-edit, drift-delete, drift-label
 	At   int    // PKO request number (faults) or step index (drift)
 	Obj  int    // managed object index (drift)
+	// Quiet: the operator gets time to repair the drift (the stage settles) before the script goes on
+	Quiet bool
 }
 
 type runResult struct {
@@ -395,6 +397,25 @@ func execute(seed *rand.Rand, sc *scenario, ds []disturbance, extra ...scen.Moni
 	}
 	for si, st := range sc.Steps {
 		for _, d := range ds {
+			if d.Kind == "drift-delete-phase" && d.At == si {
+				// a delegated phase's ObjectSetPhase is deleted out of band; PKO re-creates it (new UID) and everything below it
+				var ks []struct{ kind, ns, name string }
+				for _, kind := range []string{"ObjectSetPhase", "ClusterObjectSetPhase"} {
+					for _, k := range driver.Keys(e.W.Store, kind) {
+						ks = append(ks, struct{ kind, ns, name string }{kind, k.Namespace, k.Name})
+					}
+				}
+				if len(ks) > 0 {
+					k := ks[d.Obj%len(ks)]
+					e.Delete("third-party", false, scen.PKO(k.kind), k.ns, k.name)
+					e.Count("c10_phase_objects_deleted_out_of_band")
+					res.Fired++
+					if d.Quiet {
+						settle(e, sc)
+					}
+				}
+				continue
+			}
 			if strings.HasPrefix(d.Kind, "drift") && d.At == si && len(sc.Managed) > 0 {
 				m := sc.Managed[d.Obj%len(sc.Managed)]
 				switch d.Kind {
@@ -420,6 +441,9 @@ func execute(seed *rand.Rand, sc *scenario, ds []disturbance, extra ...scen.Moni
 					})
 				}
 				res.Fired++
+				if d.Quiet {
+					settle(e, sc)
+				}
 			}
 		}
 		if st.Do != nil {
@@ -518,12 +542,20 @@ func runCase(c *vh.Ctx, i int) {
 		}
 		plans = append(plans, p)
 	}
-	for k := 0; k < c.N(6, 80); k++ {
-		p := []disturbance{{Kind: []string{"drift-edit", "drift-delete", "drift-label"}[r.Intn(3)], At: 1 + r.Intn(len(sc.Steps)), Obj: r.Intn(16)}}
+	for k := 0; k < c.N(8, 100); k++ {
+		p := []disturbance{{Kind: []string{"drift-edit", "drift-delete", "drift-label", "drift-delete-phase"}[r.Intn(4)], At: 1 + r.Intn(len(sc.Steps)-1), Obj: r.Intn(16), Quiet: r.Intn(2) == 0}}
 		if r.Intn(2) == 0 {
 			p = append(p, disturbance{Kind: kinds[r.Intn(len(kinds))], At: 1 + r.Intn(nPoints)})
 		}
 		plans = append(plans, p)
+	}
+	// a delegated phase's object is deleted out of band and repaired in a quiet period right before each later user action
+	for si, st := range sc.Steps {
+		if st.Do != nil && si >= 3 {
+			for j := 0; j < 2; j++ {
+				plans = append(plans, []disturbance{{Kind: "drift-delete-phase", At: si, Obj: j, Quiet: true}})
+			}
+		}
 	}
 	vh.Parallel(len(plans), func(pi int) {
 		p := plans[pi]
@@ -533,6 +565,7 @@ func runCase(c *vh.Ctx, i int) {
 		for _, d := range p {
 			c.Count("c10_disturbance_"+d.Kind, 1)
 		}
+		c.Count("c10_phase_objects_deleted_out_of_band", rr.Counts["c10_phase_objects_deleted_out_of_band"])
 		if rr.PanicInfo != "" {
 			c.Violation("C10:panic", rr.PanicInfo, dump(p, rr, nil))
 		}
@@ -550,7 +583,16 @@ func runCase(c *vh.Ctx, i int) {
 		if rr.ExtraSeq != 0 {
 			c.Violation("C10:writes-at-rest:"+sc.Family, fmt.Sprintf("after %s: %d commits by passes after settling", kindsOf(), rr.ExtraSeq), dump(p, rr, nil))
 		}
-		if diff := scen.Diff(ref.Proj, rr.Proj); len(diff) > 0 && rr.TeardownDryRun409 > 0 {
+		refProj, runProj := ref.Proj, rr.Proj
+		for _, d := range p {
+			if strings.HasPrefix(d.Kind, "drift-delete") {
+				// an object that was deleted and re-created has lost the plain (non-controller) references of the revisions
+				// that owned it earlier; who controls it and everything else must still agree
+				refProj, runProj = controllersOnly(refProj), controllersOnly(runProj)
+				break
+			}
+		}
+		if diff := scen.Diff(refProj, runProj); len(diff) > 0 && rr.TeardownDryRun409 > 0 {
 			// classified: the preflight dry-run of a teardown got 409 Conflict, which preflight.DryRun reports as a violation;
 			// teardownPhaseObject treats any violation as 'nothing to clean up' and skips the object for good
 			c.Violation("C10:teardown-skips-object-when-preflight-dry-run-gets-409", fmt.Sprintf("after %s (A = undisturbed, B = disturbed):\n    %s", kindsOf(), strings.Join(diff, "\n    ")), dump(p, rr, diff))
@@ -561,6 +603,31 @@ func runCase(c *vh.Ctx, i int) {
 		}
 		c.Count("c10_end_states_equal", 1)
 	})
+}
+
+// controllersOnly drops non-controller owner references from a projection.
+func controllersOnly(p scen.Projection) scen.Projection {
+	out := scen.Projection{}
+	for k, v := range p {
+		if m, ok := v.(map[string]any); ok {
+			if owners, ok := m["owners"].([]string); ok {
+				cp := map[string]any{}
+				for kk, vv := range m {
+					cp[kk] = vv
+				}
+				var keep []string
+				for _, o := range owners {
+					if strings.HasSuffix(o, "controller=true") {
+						keep = append(keep, o)
+					}
+				}
+				cp["owners"] = keep
+				v = cp
+			}
+		}
+		out[k] = v
+	}
+	return out
 }
 
 // firstKey: kind of the first differing object (keeps signatures stable across seeds).
